@@ -28,17 +28,19 @@
         }
         if err != nil { return gnet.Close }
         ccr := cc.concurrentRequests.Add(1)
-        if ccr > e.maxConcurrent { c.Write(REFUSED); cc.concurrentRequests.Add(-1) }
+        if ccr > e.maxConcurrent || e.r.limiterAllowN(…) != nil { c.Write(REFUSED); cc.concurrentRequests.Add(-1) }
         else { go func() { handle; c.AsyncWrite(resp, func(){ cc.concurrentRequests.Add(-1) }) }() }
         if c.InboundBuffered() > 0 { goto read }
         return gnet.None
 
+  The client limiter (C15's business) is taken to allow every query: a query it rejects goes through the
+  very same REFUSED branch (one `c.Write`, counter restored), so it is answered exactly once as well.
   Message decoding (`dnsmsg.UnpackMsg`, C01's business) is abstracted as a predicate
   `dec` on the body bytes.  The bytes a `pool.GetBuf` buffer holds before it is written
   are modelled as zeros; the theorems in Props/C13 show they are never read.
 -/
 import MosVerif.Util
--- @component gnetframes MosVerif.Gnet.run
+-- (the `gnetframes` component is dispatched by Model/GnetMulti.lean, which falls back to `run` below)
 namespace MosVerif.Gnet
 
 abbrev Bytes := List UInt8
